@@ -4,6 +4,9 @@
 #ifndef NMAX
 #define NMAX 21
 #endif
+#ifndef WEC
+#define WEC 0
+#endif
 #ifndef WLEN
 #define WLEN NMAX
 #endif
@@ -14,7 +17,11 @@ INPUT_ARR(u8, IN_s, NMAX) INPUT(u64, IN_n) INPUT(u64, IN_v)
 
 static u8* mkbuf(void){
   HAVOC_ARR(IN_s, NMAX);
+#ifdef FIXN
+  IN_n = NMAX;   /* concrete length: loop exits fold during symbolic execution */
+#else
   HAVOC(IN_n); ASSUME(IN_n >= NMIN && IN_n <= NMAX);
+#endif
   /* optional CONCRETE prefix bytes (PFX0..PFX2): symbolic execution then follows one branch of a parser state machine instead of all */
 #ifdef PFX0
   IN_s[0] = PFX0;
@@ -27,6 +34,15 @@ static u8* mkbuf(void){
 #endif
   u8* s = malloc(IN_n ? IN_n : 1); ASSUME(s != 0);
   if (IN_n) memcpy(s, IN_s, IN_n);
+#ifdef PFX0
+  s[0] = PFX0;   /* jobs with a prefix have NMIN > prefix length */
+#endif
+#ifdef PFX1
+  s[1] = PFX1;
+#endif
+#ifdef PFX2
+  s[2] = PFX2;
+#endif
   return s;
 }
 /* reference: decimal digits s[st..n) -> value in u128 (n <= 21 digits < 2^70), alldig */
@@ -89,7 +105,7 @@ HARNESS(h_toi_u64){
   u128 v; int fits; int g = ref_toi(s, 0, IN_n, &v, &fits, (u128)0xFFFFFFFFFFFFFFFFULL);
   if (g && fits) { P(ec == 0, "grammatical in-range accepted"); P(out == (u64)v, "exact value"); }
   else P(ec != 0, "ungrammatical or out-of-range rejected (never wrapped)");
-  WIT(ec == 0 && IN_n == WLEN);
+  WIT(ec == WEC && IN_n == WLEN);
 }
 HARNESS(h_toi_i64){
   u8* s = mkbuf(); u64 out = 0; u64 consumed = 0;
@@ -99,7 +115,7 @@ HARNESS(h_toi_i64){
   u128 v; int fits; int g = ref_toi(s, st, IN_n, &v, &fits, lim);
   if (g && fits) { P(ec == 0, "grammatical in-range accepted"); P(out == (neg ? (u64)0 - (u64)v : (u64)v), "exact value"); }
   else P(ec != 0, "ungrammatical or out-of-range rejected (never wrapped)");
-  WIT(ec == 0 && IN_n == WLEN && neg);
+  WIT(ec == WEC && IN_n == WLEN);
 }
 HARNESS(h_toi_i32){
   u8* s = mkbuf(); u32 out = 0; u64 consumed = 0;
@@ -109,7 +125,7 @@ HARNESS(h_toi_i32){
   u128 v; int fits; int g = ref_toi(s, st, IN_n, &v, &fits, lim);
   if (g && fits) { P(ec == 0, "grammatical in-range accepted"); P(out == (u32)(neg ? (u64)0 - (u64)v : (u64)v), "exact value"); }
   else P(ec != 0, "ungrammatical or out-of-range rejected (never wrapped)");
-  WIT(ec == 0 && IN_n == WLEN && neg);
+  WIT(ec == WEC && IN_n == WLEN);
 }
 /* hex_to_integer: precondition length>0 (JSONCONS_ASSERT) */
 HARNESS(h_hex_u64){
